@@ -196,6 +196,8 @@ func (g *gen) generate(rng *xvlib.Rng, thorough bool) {
 			g.run("views-justify", []string{reset, "prop 1 1 0 0", strings.TrimSpace(fmt.Sprintf("prop 2 2 1 %d %s", pv, justA)), "cert"})
 		}
 	}
+	// F. restarted collectors
+	g.restarts(rng, thorough)
 	// D. random longer sequences, n up to 10, near the threshold
 	cases := 1500
 	if thorough {
@@ -259,4 +261,109 @@ func rngPerm(r *xvlib.Rng, n int) []int {
 		p[j], p[k] = p[k], p[j]
 	}
 	return p
+}
+
+// restarts: F. a collector RESTARTED on a ledger, through the real xpoa / tdpos constructors (restart.go).  For every
+// plugin, validator count, position of the node and (StartHeight, tip) - restart states proper, the states where the
+// root of the rebuilt tree is still the genesis of the instance, StartHeight just below the tip (the genesis inside the
+// rebuilt tree) - the proposal message of the tip block / of the block below it (HighQC, whose certificate was re-loaded
+// from the ledger) is delivered again, followed by all arrival sequences of <= 2 vote messages over the reduced
+// alphabet and every single message of the full alphabet; votes without the proposal message; a proposal above the tip.
+func (g *gen) restarts(rng *xvlib.Rng, thorough bool) {
+	type nc struct{ n, col int }
+	type st struct{ start, tip int64 }
+	ncs := []nc{{1, 0}, {2, 0}, {3, 0}, {3, 1}, {4, 0}, {4, 2}, {5, 1}, {7, 3}, {3, 3}, {4, 5}}
+	sts := []st{{1, 4}, {1, 5}, {1, 9}, {2, 6}, {4, 8}, {3, 4}, {3, 5}, {1, 3}, {1, 2}, {2, 2}, {2, 1}}
+	// deep: all arrival sequences of <= 2 messages (thorough: 3; everywhere else 2) and the full alphabet; elsewhere single messages
+	deepNc := map[nc]bool{{2, 0}: true, {3, 0}: true, {3, 1}: true, {4, 0}: true, {4, 2}: true, {3, 3}: true}
+	deepSt := map[st]bool{{1, 4}: true, {2, 6}: true, {3, 4}: true, {1, 3}: true}
+	if thorough {
+		ncs = append(ncs, nc{6, 0}, nc{10, 4})
+		sts = append(sts, st{1, 30}, st{5, 7}, st{6, 9})
+	}
+	for _, kind := range []string{"xp", "td"} {
+		for _, c := range ncs {
+			producer := 0
+			if c.col < c.n {
+				producer = c.col
+			}
+			for _, s := range sts {
+				root := rootHeight(s.start, s.tip)
+				tipRel := int(s.tip - root)
+				deep := deepNc[c] && deepSt[s]
+				max := 1
+				switch {
+				case deep && thorough:
+					max = 3
+				case deep || thorough:
+					max = 2
+				}
+				for variant := 0; variant < 2; variant++ {
+					// the certificates of the last three blocks: an exact quorum / every member but the node itself
+					cert := quorumVotesBut(c.n, c.col, producer)
+					if variant == 1 {
+						cert = nil
+						for i := 0; i < c.n; i++ {
+							if i != c.col {
+								cert = append(cert, fmt.Sprintf("%dv", i))
+							}
+						}
+						if len(cert) == len(quorumVotesBut(c.n, c.col, producer)) && !rng.Chance(1, 4) {
+							continue
+						}
+					}
+					j := "-"
+					if len(cert) > 0 {
+						j = strings.Join(cert, ",")
+					}
+					reset := fmt.Sprintf("reset %s %d %d %d %d %s %s %s", kind, c.n, c.col, s.start, s.tip, j, j, j)
+					for _, target := range []int{tipRel, tipRel - 1} {
+						if target < 1 {
+							continue
+						}
+						view := root + int64(target)
+						prop := strings.TrimSpace(fmt.Sprintf("prop %d %d %d %d %s", target, view, target-1, view-1, strings.Join(cert, " ")))
+						a := alphabet(c.n, c.col, target, view, false)
+						if variant == 0 {
+							sequences(a, max, func(seq []string) {
+								lines := append([]string{reset, prop}, seq...)
+								g.run("restart-"+kind, append(lines, "cert"))
+							})
+							if deep || thorough {
+								for _, x := range alphabet(c.n, c.col, target, view, true) {
+									g.run("restart-"+kind, []string{reset, prop, x, "cert"})
+								}
+							}
+							// the votes without the proposal message: a restarted node knows the root only
+							if len(a) > 1 {
+								g.run("restart-noprop-"+kind, []string{reset, a[0], a[1], "cert"})
+								g.run("restart-lateprop-"+kind, []string{reset, a[0], prop, a[0], a[1], "cert"})
+							}
+							// a proposal message that lies about the view / the parent of a block the tree already holds
+							g.run("restart-badprop-"+kind, []string{reset, fmt.Sprintf("prop %d %d %d %d", target, view+1, target, view), a[0], fmt.Sprintf("vote %d %d %dv", target, view+1, (c.col+1)%c.n), "cert"})
+						} else {
+							sequences(a, 1, func(seq []string) {
+								lines := append([]string{reset, prop}, seq...)
+								g.run("restart-"+kind, append(lines, "cert"))
+							})
+						}
+					}
+					if variant == 0 {
+						// the next block's proposal arrives (a restarted node's ledger state is 0: above view 3 it is only remembered),
+						// then its votes
+						next := tipRel + 1
+						view := s.tip + 1
+						prop := strings.TrimSpace(fmt.Sprintf("prop %d %d %d %d %s", next, view, tipRel, s.tip, strings.Join(cert, " ")))
+						lines := []string{reset, prop}
+						for i := 0; i < c.n && i < 4; i++ {
+							if i != c.col {
+								lines = append(lines, fmt.Sprintf("vote %d %d %dv", next, view, i))
+							}
+						}
+						g.run("restart-next-"+kind, append(lines, "cert"))
+					}
+				}
+			}
+		}
+	}
 }
